@@ -225,8 +225,10 @@ public:
 			_state = t._state;
 			++_state->rc;
 		}
-		else
+		else {
 			_state = new State_;
+			_state->finished = t._state->finished; // e.g. a copy of a thread that was already joined
+		}
 		const_cast<Thread&>(t)._thread = 0;
 	}
 	void operator=(const Thread& t)
